@@ -250,6 +250,38 @@ def _is_ref(node: ast.AST, name: str, method: bool) -> bool:
         and node.value.id in ("self", "cls")
 
 
+def _fingerprint(func: ast.AST) -> set:
+    return {n.attr for n in ast.walk(func) if isinstance(n, ast.Attribute)} | \
+        {n.func.id for n in ast.walk(func) if isinstance(n, ast.Call) and isinstance(n.func, ast.Name)}
+
+
+def _rename_nested(tree: ast.Module, rel: str, qual: str, known_nested: set, fingerprint: List[str]) -> bool:
+    """ the reference tree's `outer.inner` is missing but `outer` holds a nested function the reference tree did not have
+        whose body reads the same attributes and calls the same functions: it is `inner` under a new name """
+    outer_qual, _, inner = qual.rpartition(".")
+    outer, _ = _resolve(tree, outer_qual)
+    if outer is None or not isinstance(outer, (ast.FunctionDef, ast.AsyncFunctionDef)) or not fingerprint:
+        return False
+    want = set(fingerprint)
+    scored = []
+    for node in outer.body:
+        if isinstance(node, ast.FunctionDef) and f"{outer_qual}.{node.name}" not in known_nested:
+            have = _fingerprint(node)
+            union = want | have
+            score = len(want & have) / len(union) if union else 0.0
+            scored.append((score, node))
+    scored.sort(key=lambda item: -item[0])
+    if not scored or scored[0][0] < 0.6 or (len(scored) > 1 and scored[1][0] == scored[0][0]):
+        return False
+    node = scored[0][1]
+    old = node.name
+    node.name = inner
+    for sub in ast.walk(outer):
+        if isinstance(sub, ast.Name) and sub.id == old:
+            sub.id = inner
+    return True
+
+
 def renest(tree: ast.Module, rel: str) -> List[str]:
     """ put hoisted nested functions back; returns the qualified names restored """
     ref = _reference()
@@ -265,5 +297,7 @@ def renest(tree: ast.Module, rel: str) -> List[str]:
         if node is not None:
             continue
         if _renest_one(tree, rel, qual, params.get(qual, []), known):
+            restored.append(qual)
+        elif _rename_nested(tree, rel, qual, set(nested), ref.get("__nested_fp__", {}).get(rel, {}).get(qual, [])):
             restored.append(qual)
     return restored
